@@ -118,7 +118,9 @@ class Tensor:
 
     ndim = property(lambda s: len(s.shape))
 
-    def size(self, d=None):
+    def size(self, d=None, dim=None):
+        if d is None:
+            d = dim
         if d is None:
             return self.shape
         return self.shape[d]
